@@ -30,6 +30,25 @@ fn replace_word(line: &str, name: &str, with: &str) -> String {
     out
 }
 
+fn rewrite_line(line: &str) -> String {
+    // `crate::http::...` of the original is the shadow module itself; every other `crate::` path is rotala's
+    line.replace("std::sync::Mutex", "crate::threads::shim::Mutex")
+        .replace("std::sync::RwLock", "crate::threads::shim::RwLock")
+        .replace("crate::http::uist", "crate::threads::shadow_uist")
+        .replace("crate::http::jura", "crate::threads::shadow_jura")
+        .replace("crate::", "rotala::")
+        .replace("rotala::threads::", "crate::threads::")
+        .replace("reqwest::Client", "crate::simhttp::Client")
+}
+
+fn rewrite_paths(src: &str) -> String {
+    let body = match src.find("#[cfg(test)]\nmod tests") {
+        Some(i) => &src[..i],
+        None => src,
+    };
+    body.lines().map(rewrite_line).collect::<Vec<_>>().join("\n") + "\n"
+}
+
 fn transform(src: &str) -> Option<String> {
     // drop the #[cfg(test)] module at the end (it names std::sync::Mutex again)
     let body = match src.find("#[cfg(test)]\nmod tests") {
@@ -42,18 +61,18 @@ fn transform(src: &str) -> Option<String> {
         let t = line.trim_start();
         // `use std::sync::Mutex;`, `use std::{error::Error, sync::Mutex};`, `use std::sync::{Arc, Mutex, RwLock};`
         // (std only: tokio's async locks have another API and are left alone)
-        let is_std_sync_use = (t.starts_with("use std::") || t.starts_with("pub use std::")) && t.contains("sync") && (t.contains("Mutex") || t.contains("RwLock"));
+        let names = ["Mutex", "MutexGuard", "RwLock", "RwLockReadGuard", "RwLockWriteGuard"];
+        let has_word = |name: &str| replace_word(t, name, "\u{1}") != t;
+        let is_std_sync_use = (t.starts_with("use std::") || t.starts_with("pub use std::")) && t.contains("sync") && names.iter().any(|n| has_word(n));
         if is_std_sync_use {
             let mut rest = line.to_string();
             let indent: String = line.chars().take_while(|c| c.is_whitespace()).collect();
             let mut extra = String::new();
-            if t.contains("Mutex") {
-                rest = replace_word(&rest, "Mutex", "Mutex as __StdMutexNotUsed");
-                extra.push_str(&format!("{indent}#[allow(unused_imports)]\n{indent}use crate::threads::shim::Mutex;\n"));
-            }
-            if t.contains("RwLock") {
-                rest = replace_word(&rest, "RwLock", "RwLock as __StdRwLockNotUsed");
-                extra.push_str(&format!("{indent}#[allow(unused_imports)]\n{indent}use crate::threads::shim::RwLock;\n"));
+            for n in names {
+                if has_word(n) {
+                    rest = replace_word(&rest, n, &format!("{n} as __Std{n}NotUsed"));
+                    extra.push_str(&format!("{indent}#[allow(unused_imports)]\n{indent}use crate::threads::shim::{n};\n"));
+                }
             }
             out.push_str(&rest);
             out.push('\n');
@@ -62,12 +81,7 @@ fn transform(src: &str) -> Option<String> {
         } else {
             // fully qualified uses, the crate's own paths, and the reqwest transport of the HTTP clients
             // (which becomes the simulated one, sim/src/simhttp.rs)
-            let l = line
-                .replace("std::sync::Mutex", "crate::threads::shim::Mutex")
-                .replace("std::sync::RwLock", "crate::threads::shim::RwLock")
-                .replace("crate::", "rotala::")
-                .replace("rotala::threads::shim::", "crate::threads::shim::")
-                .replace("reqwest::Client", "crate::simhttp::Client");
+            let l = rewrite_line(line);
             if l != line && (line.contains("std::sync::Mutex") || line.contains("std::sync::RwLock")) {
                 replaced += 1;
             }
@@ -81,20 +95,67 @@ fn transform(src: &str) -> Option<String> {
     Some(out)
 }
 
-fn main() {
-    let out_dir = std::env::var("OUT_DIR").unwrap();
-    let mut ok = std::env::var("CARGO_FEATURE_SHADOW").is_ok();
-    for (name, path) in [("uist", "/repo/rotala/src/http/uist.rs"), ("jura", "/repo/rotala/src/http/jura.rs")] {
-        println!("cargo:rerun-if-changed={path}");
-        let dst = Path::new(&out_dir).join(format!("shadow_{name}.rs"));
-        match fs::read_to_string(path).ok().and_then(|s| transform(&s)) {
-            Some(t) => fs::write(&dst, t).unwrap(),
-            None => {
-                ok = false;
-                fs::write(&dst, "// shadow copy unavailable\n").unwrap();
+fn copy_tree(src: &Path, dst: &Path, top: bool, ok: &mut bool) {
+    let Ok(rd) = fs::read_dir(src) else {
+        *ok = false;
+        return;
+    };
+    let _ = fs::create_dir_all(dst);
+    for e in rd.flatten() {
+        let p = e.path();
+        let name = e.file_name();
+        if p.is_dir() {
+            copy_tree(&p, &dst.join(&name), false, ok);
+        } else if p.extension().map_or(false, |x| x == "rs") {
+            let Ok(text) = fs::read_to_string(&p) else {
+                *ok = false;
+                continue;
+            };
+            let is_server = top && (name == "uist.rs" || name == "jura.rs");
+            match transform(&text) {
+                Some(t) => fs::write(dst.join(&name), t).unwrap(),
+                // a file without a lock in it (e.g. wire types moved to a sub-module) is copied with the path
+                // rewrites only; the two server files must contain the lock
+                None if !is_server => fs::write(dst.join(&name), rewrite_paths(&text)).unwrap(),
+                None => {
+                    *ok = false;
+                    fs::write(dst.join(&name), "// shadow copy unavailable\n").unwrap();
+                }
             }
         }
     }
+}
+
+fn main() {
+    let out_dir = std::env::var("OUT_DIR").unwrap();
+    let mut ok = std::env::var("CARGO_FEATURE_SHADOW").is_ok();
+    // the whole rotala/src/http tree is mirrored (sub-module files keep their relative places)
+    let src = Path::new("/repo/rotala/src/http");
+    println!("cargo:rerun-if-changed=/repo/rotala/src/http");
+    let dst = Path::new(&out_dir).join("shadow");
+    let _ = fs::remove_dir_all(&dst);
+    copy_tree(src, &dst, true, &mut ok);
+    // a file included through #[path] resolves its nested `mod x;` like a mod.rs would: the companion
+    // directory of uist.rs / jura.rs (http/jura/...) must also be visible one level up
+    for stem in ["uist", "jura"] {
+        let companion = src.join(stem);
+        if companion.is_dir() {
+            let mut dummy = true;
+            copy_tree(&companion, &dst, false, &mut dummy);
+        }
+    }
+    for f in ["uist.rs", "jura.rs"] {
+        println!("cargo:rerun-if-changed=/repo/rotala/src/http/{f}");
+        if !dst.join(f).exists() {
+            ok = false;
+        }
+    }
+    let mods = format!(
+        "#[allow(dead_code, unused_imports, clippy::all)]\n#[path = {:?}]\npub mod shadow_uist;\n#[allow(dead_code, unused_imports, clippy::all)]\n#[path = {:?}]\npub mod shadow_jura;\n",
+        dst.join("uist.rs").to_string_lossy(),
+        dst.join("jura.rs").to_string_lossy()
+    );
+    fs::write(Path::new(&out_dir).join("shadow_mods.rs"), mods).unwrap();
     if ok {
         println!("cargo:rustc-cfg=shadow_http");
     }
